@@ -405,6 +405,8 @@ func (w *world) mutations(rng *rand.Rand, b *base) []mutant {
 	out = append(out, b.withKeyF("key-truncated", func(k *dns.DNSKEY) { k.PublicKey = b64(b.pubRaw[:len(b.pubRaw)-1]) }))
 	out = append(out, b.withKeyF("key-extended", func(k *dns.DNSKEY) { k.PublicKey = b64(append(append([]byte(nil), b.pubRaw...), 0)) }))
 	out = append(out, b.withKeyF("key-empty", func(k *dns.DNSKEY) { k.PublicKey = "" }))
+	// key material cut / re-framed at its structural boundaries, tag following
+	out = append(out, w.keyVariantMutants(rng, b)...)
 	if rng.IntN(40) == 0 {
 		out = append(out, b.withKeyF("key-huge", func(k *dns.DNSKEY) { k.PublicKey = b64(fill(rng, 5000+rng.IntN(60000))) }))
 	}
